@@ -24,6 +24,7 @@ from . import shared
 
 
 NEEDS_READER = True  # attached C06 clauses read the netlisters' conventions
+NEEDS_PDKS = True  # the attached C12 clause on walker state covers the PDK walkers
 
 
 def check(repo: Repo, R) -> None:
@@ -36,6 +37,11 @@ def check(repo: Repo, R) -> None:
                                  "the name of a generated module depends on something other than the parameter values (an address, a salted hash): equal parameters give different names"))
     R.run(c06.check, repo, shared.Retag(R, lambda r, k: "C09.5-distinct-modules-distinct-names" if r.startswith("C06.2") and k.endswith("export_module_name") else None,
                                  "two different generated modules that share a qualified name are exported as one name defined twice, instead of being refused"))
+    # a result enters the cache finished — named: whatever fails while naming it fails the call, and nothing half-named
+    # is handed out by the next, identical call
+    from . import c08 as _c08
+    R.run(_c08.check, repo, shared.Retag(R, lambda r, k: "C09.8-cached-only-when-named" if r.startswith("C08.2") and k.startswith("hdl21/generator.py") else None,
+                                        "a generator call whose naming failed (un-encodable parameter value) has already cached its module: the identical call returns it, under the bare generator name that other parameter values share"))
     R.run(qualified_names, repo, R)
     R.run(definition_site, repo, R)
     R.run(generators_return_their_own, repo, R)
@@ -236,6 +242,25 @@ def hashed_names(repo: Repo, R):
             sets_ok = bool(rets_) and all(by_text(v) for r_ in rets_ for v, _c in shared.alternatives(fe.node, r_.value, shared.path_conditions(fe.node, r_), at=r_))
     R.check(sets_ok, rule, key_of(fe, "sets-ordered"), fe.site, f"set-valued parameters are encoded as the sorted texts of their elements' encodings (a total order; not iteration order, not the elements' own order): {sets_ok}",
             why="the default encoder lists a set in hash order, and sorted() over mutually incomparable elements (disjoint frozensets) returns its input order: the md5 name of a module generated from a set-valued parameter changes with PYTHONHASHSEED")
+    # by kind, whatever the shape of the dispatch: a value defined by the user (a Module, an ExternalModule, a Generator — or a
+    # call of an ExternalModule) is named through the qualified path of its definition
+    universe = {"Instance", "Module", "ExternalModule", "Generator", "Primitive", "PrimitiveCall", "ExternalModuleCall", "set", "frozenset"}
+    oa = fe.node.args.args[0].arg
+    want_q = {"Module": f"module_qualname({oa})", "ExternalModule": f"module_qualname({oa})", "Generator": f"module_qualname({oa})", "ExternalModuleCall": f"module_qualname({oa}.module)"}
+    got_q: Dict[str, List[str]] = {}
+    for r_ in shared.returns_of(fe.node):
+        if r_.value is None:
+            continue
+        ks_ = shared.admissible_kinds(fe.node, r_, oa, universe)
+        for v, _c in shared.alternatives(fe.node, r_.value, shared.path_conditions(fe.node, r_), at=r_):
+            for k_ in ks_ & set(want_q):
+                got_q.setdefault(k_, []).append(ast.unparse(v))
+    for k_, w_ in want_q.items():
+        vals = got_q.get(k_, [])
+        okq = bool(vals) and all(w_ in t_ and (k_ != "ExternalModuleCall" or f"_unique_name({oa}.params)" in t_) for t_ in vals)
+        R.check(okq, "C09.5-distinct-modules-distinct-names", key_of(fe, f"qualified-{k_}"), fe.site,
+                f"a {k_}-valued parameter is encoded through `{w_}`" + (f" and the unique name of its parameters" if k_ == "ExternalModuleCall" else "") + f": {vals}",
+                why=f"two {k_}s of one name from two Python modules encode alike: the generated modules of `Gen(unit=a.res(..))` and `Gen(unit=b.res(..))` get one name, and the design is refused (or exported under one name)")
     R.check(ok and mods, rule, key_of(fe, "encoder"), fe.site, f"the encoder names Module/ExternalModule/Generator values by their qualified name ({mods}) and hands everything else to the (raising) default encoder ({ok})", why="module-valued parameters are named by their address-bearing repr")
 
 
